@@ -747,6 +747,33 @@ def st_metres(ta, tb):
     return out
 
 
+def st_lla_difference(ta, tb):
+    """transform.compute_lla_difference (single points and stacked) is the same NED-metre conversion that
+    compute_state_difference applies to lat/lon/alt columns"""
+    import pandas as pd
+    from pyins import transform
+    a, b = mkdf(ta)[LLA], mkdf(tb)[LLA]
+    out = []
+    rep = dict(kind='lla_difference', a=ta, b=tb)
+    stacked = transform.compute_lla_difference(a.values, b.values)
+    d = transform.compute_state_difference(a, b)
+    if stacked.shape != (len(a), 3) or np.abs(stacked - d[['north', 'east', 'down']].values).max() > \
+            1e-9 * max(1.0, np.abs(stacked).max()):
+        out.append(_fail("compute_lla_difference (stacked) differs from the position columns of "
+                         "compute_state_difference", None, **rep))
+    for i in range(len(a)):
+        one = transform.compute_lla_difference(a.values[i], b.values[i])
+        rn, rp = _radii(0.5 * (a.values[i, 0] + b.values[i, 0]), 0.5 * (a.values[i, 2] + b.values[i, 2]))
+        dd = a.values[i] - b.values[i]
+        want = np.array([math.radians(dd[0]) * rn, math.radians(dd[1]) * rp, -dd[2]])
+        if one.shape != (3,) or np.abs(one - want).max() > 1e-9 * max(1.0, np.abs(want).max()) or \
+                np.abs(one - stacked[i]).max() > 1e-9 * max(1.0, np.abs(want).max()):
+            out.append(_fail(f"compute_lla_difference of row {i} is {one.tolist()}, metres at the mean latitude "
+                             f"are {want.tolist()}", None, **rep))
+            break
+    return out
+
+
 def st_perturb(traj, err):
     """perturb_pva -> compute_state_difference recovers the injected error to first order"""
     import pandas as pd
@@ -953,7 +980,9 @@ def statement_tests(r, rng, n, count=None):
             cols = LLA + rng.sample(['VN', 'roll', 'x'], rng.randint(0, 2))
             rng.shuffle(cols)
             ts = gen_times(rng, rng.randint(2, 6), rng.choice(GAPS))
-            guarded('metres', st_metres, gen_table(rng, cols, ts, ctx), gen_table(rng, cols, ts, ctx))
+            ma, mb = gen_table(rng, cols, ts, ctx), gen_table(rng, cols, ts, ctx)
+            guarded('metres', st_metres, ma, mb)
+            guarded('lla_difference', st_lla_difference, ma, mb)
         if i % 5 == 0:
             tr, er = gen_traj(rng, rng.randint(2, 6))
             guarded('perturb', st_perturb, tr, er)
@@ -1018,6 +1047,27 @@ def corpus_corr_cases():
     return out
 
 
+# Lines of the anchored functions that may stay unreached, each with its reason:
+COV_ALLOW = (
+    # compute_state_difference: mixed DataFrame / Series input is rejected; outside the property's quantifier
+    # (pairs of tables, pairs of Series) and outside the model
+    'raise ValueError("Both inputs must be either DataFrame or Series")',
+    # to_180_range scalar path, body of `elif result < -180:` -- dead code: `angle % 360` is never negative
+    # (C18_to180_range_congruent is proved from exactly this fact, Proofs/To180Proofs.v to180_scalar_cases)
+    'result += 360',
+)
+
+
+def covered_functions():
+    from pyins import transform, util, sim
+    return {'transform.resample_state': transform.resample_state,
+            'transform.compute_state_difference': transform.compute_state_difference,
+            'util.to_180_range': util.to_180_range,
+            'sim.perturb_pva': sim.perturb_pva,
+            'transform.perturb_lla': transform.perturb_lla,
+            'transform.compute_lla_difference': transform.compute_lla_difference}
+
+
 def check(r):
     r.trusted += [
         "translator tools/sym.py + tools/ir2coq.py for util.to_180_range (scalar and ndarray paths), validated "
@@ -1038,22 +1088,29 @@ def check(r):
     r.generate(['Util'])
     r.prove('Props/C18.v')
 
+    import linecov
     quick = r.tier == 'quick'
     rng = random.Random(r.seed + 18)
-    dist = {}
-    cases = corpus_corr_cases() + (gen_corr_cases(rng, 120, 50, 40) if quick else gen_corr_cases(rng, 1500, 500, 300))
-    nbad = correspondence(r, cases, dist)
-    r.coverage['distribution'] = dist
-    r.coverage['correspondence'] = dict(cases=len(cases), disagreements=nbad, cells_compared=dict(CELLS))
-    r.log(f"correspondence: {len(cases)} cases, {nbad} disagreement(s)")
-
-    cnt = {}
-    seen = set()
-    fails = corpus_statement_tests(cnt)
-    fails += statement_tests(r, random.Random(r.seed + 1018), 60 if quick else 1500, cnt)
-    nreal = report(r, fails, seen)
-    r.coverage['statement_tests'] = dict(runs=cnt, failures_other_than_known_findings=nreal)
-    r.log(f"statement tests: {cnt}; {nreal} failure(s) other than known findings")
+    cov = linecov.LineCoverage(covered_functions())
+    cov.__enter__()
+    measured = cov.active          # False when the sys.monitoring tool id is taken by someone else
+    try:
+        nreal = _run_cases(r, quick, rng)
+    finally:
+        cov.__exit__(None, None, None)
+    summ, missing = cov.report(allow=COV_ALLOW)
+    _, missing_all = cov.report(allow=())
+    allowed_hit = [m for m in missing_all if m not in missing]     # allowed lines that indeed stayed unreached
+    r.coverage['code_lines'] = dict(functions=summ, allowed=list(COV_ALLOW), allowed_and_unreached=allowed_hit,
+                                    measured=measured)
+    r.log("code lines (executed/reachable): "
+          + ", ".join(f"{k.split('.')[-1]} {v['executed']}/{v['executed'] + len(v['unreached'])}" for k, v in summ.items())
+          + f"; allowed and unreached: {[m.split(': ')[0] for m in allowed_hit]}"
+          + (f"; NOT exercised: {missing}" if missing else "; every other executable line reached"))
+    if not measured:
+        r.broken('correspondence', 'line coverage could not be measured (sys.monitoring tool id in use)', '')
+    elif missing:
+        r.broken('correspondence', 'code line not exercised', missing)
     if r.tier == 'thorough':
         r.hygiene('Props/C18.v')
         if hasattr(r, 'coqchk'):
@@ -1062,8 +1119,29 @@ def check(r):
     # always recorded here, so call it ourselves when something broke and nothing concrete is known
     if r.breaks and nreal == 0:
         r.log("something broke: running the falsifier on the implementation ...")
-        r.falsified = True
-        falsify(r, seen)
+        falsify(r, _SEEN)
+
+
+_SEEN = set()
+
+
+def _run_cases(r, quick, rng):
+    dist = {}
+    cases = corpus_corr_cases() + (gen_corr_cases(rng, 120, 50, 40) if quick else gen_corr_cases(rng, 1500, 500, 300))
+    nbad = correspondence(r, cases, dist)
+    r.coverage['distribution'] = dist
+    r.coverage['correspondence'] = dict(cases=len(cases), disagreements=nbad, cells_compared=dict(CELLS))
+    r.log(f"correspondence: {len(cases)} cases, {nbad} disagreement(s)")
+
+    cnt = {}
+    seen = _SEEN
+    seen.clear()
+    fails = corpus_statement_tests(cnt)
+    fails += statement_tests(r, random.Random(r.seed + 1018), 60 if quick else 1500, cnt)
+    nreal = report(r, fails, seen)
+    r.coverage['statement_tests'] = dict(runs=cnt, failures_other_than_known_findings=nreal)
+    r.log(f"statement tests: {cnt}; {nreal} failure(s) other than known findings")
+    return nreal
 
 
 def falsify(r, seen=None):
@@ -1097,6 +1175,9 @@ def replay(obj):
             show = [dict(kind='diff', a=rep['a'], b=rep['b']), dict(kind='diff', a=rep['b'], b=rep['a'])]
         elif kind == 'metres':
             fs = st_metres(rep['a'], rep['b'])
+            show = [dict(kind='diff', a=rep['a'], b=rep['b'])]
+        elif kind == 'lla_difference':
+            fs = st_lla_difference(rep['a'], rep['b'])
             show = [dict(kind='diff', a=rep['a'], b=rep['b'])]
         elif kind == 'perturb':
             fs = st_perturb(rep['a'], rep['b'])
